@@ -19,5 +19,8 @@ theorem C09_gen_poolRetireRule : Generated.poolRetireRule = some retireRuleSpec 
 theorem C09_gen_poolRunHandlerSafe : Generated.poolRunHandlerSafe = some runHandlerSafeSpec := by decide
 /-- A failed `Thread.start()` leaves the accounting untouched (the failure branch of the model changes nothing). -/
 theorem C09_gen_poolStartRollback : Generated.poolStartRollback = some startRollbackSpec := by decide
+/-- The future's event publishes last: `EventData.set` / `raise_exception` store `__data` and `__exception` before
+    `self.__event.set()` and execute nothing after it (the model's single `fut.set` step: flag and value together). -/
+theorem C09_gen_poolFuturePublishesLast : Generated.poolFuturePublishesLast = some futurePublishesLastSpec := by decide
 
 end JRV.Props
